@@ -216,3 +216,36 @@ pub fn idle_breakdown(k: &kanata_state_machine::Kanata) -> String {
     v.push(format!("states={}", l.states.len()));
     v.join(",")
 }
+
+/// Physically consistent: press only up keys, release/repeat only down keys, wheel keys only as
+/// Tap events, everything released at the end, TCP virtual key ops balanced.
+pub fn history_consistent(ops: &[Op]) -> bool {
+    let mut down: Vec<u16> = vec![];
+    let mut vdown: Vec<&str> = vec![];
+    for op in ops {
+        match op {
+            Op::Press(c) => {
+                if down.contains(c) || crate::gen::is_wheel_code(*c) {
+                    return false;
+                }
+                down.push(*c)
+            }
+            Op::Release(c) => {
+                if !down.contains(c) {
+                    return false;
+                }
+                down.retain(|x| x != c)
+            }
+            Op::Repeat(c) => {
+                if !down.contains(c) || crate::gen::is_mouse_btn_code(*c) {
+                    return false;
+                }
+            }
+            Op::Vkey(n, 0) => vdown.push(n),
+            Op::Vkey(n, 1) => vdown.retain(|x| x != n),
+            Op::Vkey(_, 3) => return false,
+            _ => {}
+        }
+    }
+    down.is_empty() && vdown.is_empty()
+}
